@@ -64,7 +64,7 @@ def system_case(rng):
             if rng.random() < 0.6:
                 c = MC.random_shared_case(rng, rng.choice([4, 6, 8]), ctor='string', mol_kw=dict(charged=False, lowest_valence=True))
             else:
-                c = MC.random_cut_case(rng, rng.choice([3, 6]), ctor='string', mol_kw=dict(charged=False, lowest_valence=True))
+                c = MC.random_cut_case(rng, rng.choice([3, 6]), ctor='string', mol_kw=dict(charged=False, lowest_valence=True), plain_names=True)
             if c is not None and unstrained(c) and rdkit_agrees(c):
                 break
         else:
